@@ -17,7 +17,7 @@ class Query:
     def __init__(s, name, harness, mode='seq', defs=None, srcs=(), T=2, K=4, unwind=8, unwindset=None, opt='O1',
                  shift_check=False, spin=None, tiers=('quick', 'thorough'), timeout=300, mem_gb=16, solver='default',
                  object_bits=None, validate=20, note='', threads_tls=None, cxxflags=(), expect_known=None,
-                 extra_cbmc=(), hook=True, depth=None, unwind_fn=None, coro_style='goto', atomic_fn=None, abort_fn=None):
+                 extra_cbmc=(), hook=True, depth=None, unwind_fn=None, coro_style='goto', atomic_fn=None, abort_fn=None, crosscheck=1):
         s.name = name; s.harness = harness; s.mode = mode; s.defs = dict(defs or {}); s.srcs = list(srcs)
         s.T = T; s.K = K; s.unwind = unwind; s.unwindset = dict(unwindset or {}); s.opt = opt
         s.shift_check = shift_check; s.spin = dict(spin or {}); s.tiers = tiers; s.timeout = timeout
@@ -25,6 +25,7 @@ class Query:
         s.threads_tls = threads_tls; s.cxxflags = list(cxxflags); s.expect_known = expect_known
         s.extra_cbmc = list(extra_cbmc); s.hook = hook; s.depth = depth
         s.coro_style = coro_style            # 'guard': clones re-walk their CFG with execution switched off; 'goto': clones jump to the resume label
+        s.crosscheck = crosscheck            # number of recorded native runs of the generated C that cbmc must reproduce
         s.abort_fn = abort_fn                # regex: functions declared unreachable for this query (reaching one is a reported failure)
         s.atomic_fn = atomic_fn              # regex: calls to these yield-capable functions are executed without preemption
         s.unwind_fn = dict(unwind_fn or {})   # {regex over loop id (function.N): bound}: resolved to --unwindset via cbmc --show-loops
@@ -170,6 +171,38 @@ def validate_translation(q, eb, ec, use_hook, seed0):
         if len(samples) < 2: samples.append({'seed': seed, 'log': ob.strip().split('\n')[-4:]})
     return same, ended, samples, native_fail
 
+def crosscheck_cbmc_native(q, wd, eb, seed0, n=2):
+    """cbmc versus gcc on the SAME generated C: a native run (random inputs, random context switches) records the values it consumed and
+    the observations it printed; cbmc then executes the program with exactly those values (VERIF_FIXED_STREAM) and must reproduce every
+    observation and reach the end.  Guards against modelling differences inside cbmc (e.g. lost stores through integer-carried pointers)."""
+    done = 0; tried = 0
+    while done < n and tried < 4 * n:
+        seed = seed0 * 7919 + tried; tried += 1
+        rec = os.path.join(wd, 'rec_%d.txt' % seed)
+        env = dict(os.environ); env.pop('VERIF_REPLAY', None)
+        env.update(VERIF_SEED=str(seed), VERIF_RECORD=rec)
+        if q.mode == 'coro': env['VERIF_YIELD_DEN'] = '3'
+        rc, out, _ = run([eb], env=env, timeout=60)
+        if 'END ok' not in out or 'ASSERT-FAIL' in out: continue      # pruned by an assumption (or failing): not a usable reference run
+        stream = [int(x) for x in open(rec).read().split()] if os.path.exists(rec) else []
+        obs = [int(m, 16) for m in re.findall(r'^OBS ([0-9a-f]+)$', out, re.M)]
+        with open(os.path.join(wd, 'stream.h'), 'w') as f:
+            f.write('#define VERIF_STREAM_N %d\n#define VERIF_OBS_N %d\n' % (max(1, len(stream)), max(1, len(obs))))
+            f.write('static const uint64_t VERIF_STREAM[%d] = {%s};\n' % (max(1, len(stream)), ','.join('%dULL' % v for v in stream) or '0'))
+            f.write('static const uint64_t VERIF_OBS[%d] = {%s};\n' % (max(1, len(obs)), ','.join('%dULL' % v for v in obs) or '0'))
+        cmd = [c for c in cbmc_cmd(q, wd) if c != '--slice-formula'] + ['-DVERIF_FIXED_STREAM']
+        rc2, out2, dt = run(cmd, cwd=wd, timeout=min(600, q.timeout), mem_gb=q.mem_gb)
+        if rc2 == -999: raise Broken('cbmc/native cross-check timed out (query %s, seed %d)' % (q.name, seed))
+        res, _ = parse_cbmc(out2)
+        bad = [r for r in res if r['st'] != 'SUCCESS' and 'VERIF-WITNESS' not in r['desc']]
+        wit = [r for r in res if 'VERIF-WITNESS' in r['desc']]
+        if bad or not wit or wit[0]['st'] != 'FAILURE':
+            open(os.path.join(wd, 'crosscheck_%d.out' % seed), 'w').write(out2)
+            raise Broken('CBMC/NATIVE DIVERGENCE (query %s, seed %d): cbmc executing the recorded run of the gcc build of the same generated C disagrees: %s'
+                         % (q.name, seed, '; '.join('%s: %s' % (r['id'], r['desc'][:80]) for r in bad[:4]) or 'end of harness not reached'))
+        done += 1
+    return done
+
 # ---------------- cbmc
 RES_RE = re.compile(r'^\[(?P<id>[^\]]+)\] (?:line (?P<line>\d+) )?(?P<desc>.*): (?P<st>SUCCESS|FAILURE|UNKNOWN|ERROR)$')
 
@@ -257,6 +290,10 @@ def run_query(q, tier, seed, scratch_root, hook_available=False, keep=False, is_
             same, ended, samples, native_fail = validate_translation(q, eb, ec, use_hook, seed)
             R['translation_validation'] = {'runs_identical': same, 'ended': ended, 'samples': samples, 'hooked_atomics': use_hook,
                                            't_s': round(time.time() - t1, 2)}
+            if not native_fail and q.crosscheck:
+                t1b = time.time()
+                R['translation_validation']['cbmc_native_crosscheck_runs'] = crosscheck_cbmc_native(q, wd, eb, seed, q.crosscheck)
+                R['translation_validation']['cbmc_native_crosscheck_s'] = round(time.time() - t1b, 2)
             known_native = []
             if native_fail and is_known:
                 known_native = [nf for nf in native_fail if is_known(nf['desc'])]
